@@ -109,6 +109,18 @@ def run(ctx: Ctx) -> None:
                                      "\n".join(f"{s['n']} {s['action']}" for s in res.error_trace[-12:]))
         ctx.note(f"TLC MC_C03_nocrash_{v}.cfg: {res.states} states, {res.generated} transitions, depth {res.depth}: "
                  f"NoStranded holds at every step without crashes")
+    # liveness: under weak fairness of every actor every accepted invocation is eventually final (no crash);
+    # with one crash the property fails in the model (the stranded classes below)
+    for v in (["retry"] if ctx.quick else ["retry", "rec", "cc", "stop"]):
+        res = tlc.run_tlc("MC_Core", f"MC_C03_live_nocrash_{v}.cfg", timeout=3000)
+        ctx.add_tlc(res)
+        if res.violated or not res.ok:
+            raise tlc.MachineryError(f"PynencCore FairSpec (no crash, {v}) violates EventuallyFinal")
+        ctx.note(f"TLC MC_C03_live_nocrash_{v}.cfg (FairSpec): {res.states} states: EventuallyFinal (accepted ~> final) holds")
+    res = tlc.run_tlc("MC_Core", "MC_C03_live_KF_crash.cfg", timeout=3000)
+    ctx.add_tlc(res)
+    ctx.note("TLC MC_C03_live_KF_crash.cfg (FairSpec, one crash): counterexample of EventuallyFinal "
+             + ("found (an invocation stranded by the crash never becomes final)" if res.violated else "NOT found"))
     classes: set[tuple] = set()
     for v in (["retry"] if ctx.quick else ["cc", "retry", "rec", "stop"]):
         res = tlc.run_tlc("MC_Core", f"MC_C03_crash_{v}.cfg", coverage=True, timeout=3000)
